@@ -177,7 +177,7 @@ package client
 //@ requires c != nil && c.qs != nil && clientQuiet(c) && tagof(ctx) != 0
 //@ ensures[nil-means-converged-and-error-free] result0 == nil ==> quiescent(c)
 //@ loop 1 invariant clientQuiet(c)
-//@ assigns nothing
+//@ assigns recvdAll
 //@ props C13 C11:lock
 
 // q hands the request to the sender goroutine: at most one message, and only this one, is put
@@ -185,7 +185,7 @@ package client
 //@ unit Client.q
 //@ requires c != nil && c.qs != nil && held(c.awaiting) == 0
 //@ ensures[at-most-this] len(sent(c.qs.modifyCh)) == old(len(sent(c.qs.modifyCh))) || (len(sent(c.qs.modifyCh)) == old(len(sent(c.qs.modifyCh))) + 1 && sent(c.qs.modifyCh)[old(len(sent(c.qs.modifyCh)))] == m)
-//@ assigns sent(c.qs.modifyCh)
+//@ assigns sent(c.qs.modifyCh), recvd(c.sendExitCh)
 //@ props C13 C11:lock
 
 // Q: every operation of the request is registered as pending (or the failure is recorded as a
@@ -200,7 +200,7 @@ package client
 //@   || (len(c.qs.sendq) == old(len(c.qs.sendq)) && len(sent(c.qs.modifyCh)) <= old(len(sent(c.qs.modifyCh))) + 1)
 //@ ensures[queue-kept] forall i in 0..old(len(c.qs.sendq)) :: c.qs.sendq[i] == old(c.qs.sendq[i])
 //@ ensures[wf] qsWF(c)
-//@ assigns contents(c.qs.pendq.Ops), c.qs.pendq.Election, c.qs.pendq.SessionParams, c.sendErr, c.qs.sendq, sent(c.qs.modifyCh)
+//@ assigns contents(c.qs.pendq.Ops), c.qs.pendq.Election, c.qs.pendq.SessionParams, c.sendErr, c.qs.sendq, sent(c.qs.modifyCh), recvd(c.sendExitCh)
 //@ props C13 C11:lock
 
 // clientIdle: the calling goroutine holds none of the client's locks.
